@@ -699,7 +699,16 @@ fn codegen_fn_scale(units: &Vec<UnitDef>) -> TokenStream {
     for unit in units {
         if unit.scale.is_some() {
             let unit_ident = &unit.unit_ident;
-            let unit_scale: &syn::Lit = unit.scale.as_ref().unwrap();
+            // An integer literal is handed on as a float literal (`1000` as
+            // `1000e0`): as an integer it gets the type `i32` in the float
+            // back-end, so that scales above `i32::MAX` do not compile.
+            let unit_scale: syn::Lit = match unit.scale.as_ref().unwrap() {
+                syn::Lit::Int(int_lit) => syn::Lit::Float(syn::LitFloat::new(
+                    format!("{}e0", int_lit.base10_digits()).as_str(),
+                    int_lit.span(),
+                )),
+                lit => lit.clone(),
+            };
             code = quote!(
                 #code
                 Self::#unit_ident => Amnt!(#unit_scale),
